@@ -96,6 +96,23 @@ def main(ctx):
     ctx.expect_vacuity("dumped score tables", len(tabs))
     ctx.extra["score_tables_from_hook"] = [{"classes": P["classes"], "gap": t["gap10"] / 10, "scale": t["scale10"] / 10,
                                             "gap_penalty": t["gapp"], "tab": t["tab"]} for t in tabs][:2]
+    # shape of the full 94 x 94 tables (symmetric, sign, monotone in the qualities): ScoreGridTrace.tla
+    grid = ctx.path("grid.ndjson")
+    ctx.harness(["record", "C08", "--out", grid, "--opt", "dump=grid", "--opt", "cfgs=" + P["cfgs"]])
+    gev, grej = ctx.trace_validate("ScoreGridTrace", "ScoreGridTrace.cfg", grid, timeout=600)
+    ctx.expect_vacuity("score grids", len(gev))
+    for r in grej:
+        g = gev[r["l"] - 1]
+        if r["why"] == "event.malformed":
+            raise vlib.Inconclusive("harness logged a malformed grid (l=%d)" % r["l"])
+        bad = [(a, b, g["grid"][a][b]) for a in range(2, 94) for b in range(2, 94)
+               if (g["kind"] == "match") != (g["grid"][a][b] > 0) or g["grid"][a][b] != g["grid"][b][a]
+               or (a < 93 and ((g["grid"][a + 1][b] < g["grid"][a][b]) if g["kind"] == "match" else (g["grid"][a + 1][b] > g["grid"][a][b])))][:6]
+        ctx.violation("C08." + r["why"], "grid/%s/scale=%.1f" % (g["kind"], g["scale10"] / 10),
+                      "substitution scores of %s facing %s (scale %.1f) rejected by ScoreGridTrace (%s): first offending "
+                      "(quality a, quality b, score) %s" % (g["x"], g["y"], g["scale10"] / 10, r["why"], bad),
+                      {k: v for k, v in g.items() if k != "grid"})
+    ctx.extra["score_grids_checked"] = len(gev)
     # M ---------------------------------------------------------------------------------------------------
     cases = ctx.path("cases.ndjson")
     r = ctx.tlc_model("PEAlignCheck", "PEAlignCheck_%s.cfg" % tier, env={"VERIF_CASES": cases, "VERIF_TABLE": table},
@@ -155,7 +172,8 @@ def main(ctx):
         "reads are lower-case IUPAC DNA symbols (acgt ryswkm bdhv n), 1..300 bases, qualities 0..93; 'u', gaps and other bytes "
         "are outside the specification",
         "the substitution scores and the gap penalty are parameters of the specification: the implementation's own integer "
-        "values (hook H2) are used, the numeric correctness of the log-odds tables is not decided",
+        "values (hook H2) are used; of the log-odds tables only the shape is decided (ScoreGridTrace: symmetric, identical bases "
+        "> 0, different bases <= 0, monotone in both qualities, for all qualities 2..93), not the numeric values",
         "the quality of a consensus column where the two reads disagree is only required to lie in 0..90; a base of quality 0 "
         "does not count as a match (seq_ab_match, identity)",
         "exact-mode optimality is recomputed by the DP for pairs with la*lb <= DPCap (trace cfg); beyond it the score is "
